@@ -1,15 +1,475 @@
 package synth
 
+import (
+	"fmt"
+	"strings"
+
+	"verif/kernel"
+)
+
 // TableInfo describes one SQL table struct of the analysed file, from the
 // source's point of view (never from gomacro's output).
 type TableInfo struct {
-	Name    string       `json:"name"`    // Go struct name
-	Columns []ColumnInfo `json:"columns"` // exported / guard fields in order
+	Name       string       `json:"name"` // Go struct name
+	Primary    bool         `json:"primary"`
+	IDType     string       `json:"id_type,omitempty"` // "int64" or a local named type
+	Columns    []ColumnInfo `json:"columns"`           // exported fields in order (guards excluded)
+	Guards     []string     `json:"guards,omitempty"`
+	Uniques    [][]string   `json:"uniques,omitempty"`     // ADD UNIQUE(...) field names
+	PrimaryKey []string     `json:"primary_key,omitempty"` // ADD PRIMARY KEY(...) on link tables
+	SelectKeys [][]string   `json:"select_keys,omitempty"`
+	Queries    []QueryInfo  `json:"queries,omitempty"`
+}
+
+type QueryInfo struct {
+	Name  string   `json:"name"`
+	Set   string   `json:"set"`   // field assigned
+	Where string   `json:"where"` // field compared
+	Args  []string `json:"args"`  // argument order: field names
 }
 
 type ColumnInfo struct {
-	Field string `json:"field"`
-	Kind  string `json:"kind"`
+	Field    string `json:"field"`
+	GoType   string `json:"go_type"`
+	Kind     string `json:"kind"` // id bool int float string enum fk time date nulltime nullstring nullbool nullint32 nullfloat bytes array composite json
+	Enum     string `json:"enum,omitempty"`
+	FK       string `json:"fk,omitempty"` // target table (Go name)
+	Nullable bool   `json:"nullable,omitempty"`
+	OnDelete string `json:"on_delete,omitempty"`
+	ArrayLen int    `json:"array_len,omitempty"` // -1 for slices
 }
 
-func (g *gen) sqlTables(f *file) {}
+func (t *TableInfo) Column(field string) *ColumnInfo {
+	for i := range t.Columns {
+		if t.Columns[i].Field == field {
+			return &t.Columns[i]
+		}
+	}
+	return nil
+}
+
+var tableNames = []string{"Item", "Exercice", "UserAccount", "Progression", "Camp", "Dossier", "Ticket", "Lesson", "Recipe", "Planet", "Sheet", "Invoice", "Widget", "Trajet"}
+var fieldNames = []string{"Name", "Title", "Count", "Flag", "Score", "Tags", "Data", "Kind", "Amount", "Label", "Notes", "Rank", "Size", "Color", "Level", "Price", "Ref", "Weight", "Code", "Mark"}
+
+type sqlGen struct {
+	g        *gen
+	tf       *file // tables file (analysed)
+	sf       *file // support types file (same package, not analysed)
+	tables   []*TableInfo
+	used     map[string]bool
+	dateType string
+	enums    []EnumInfo
+}
+
+func (s *sqlGen) field(t map[string]bool) string {
+	for {
+		n := kernel.Pick(s.g.r, fieldNames)
+		if s.g.r.Chance(1, 4) {
+			n += fmt.Sprint(s.g.r.Range(1, 3))
+		}
+		if !t[strings.ToLower(n)] {
+			t[strings.ToLower(n)] = true
+			return n
+		}
+	}
+}
+
+// supportEnum declares an enum in the support file and returns it.
+func (s *sqlGen) supportEnum() EnumInfo {
+	if len(s.enums) > 0 && s.g.r.Chance(1, 2) {
+		return kernel.Pick(s.g.r, s.enums)
+	}
+	before := len(s.g.prog.Enums)
+	for {
+		s.g.declEnum(s.sf)
+		e := s.g.prog.Enums[len(s.g.prog.Enums)-1]
+		if exported(e.Name) && e.Underlying != "uint" && len(e.Exported) > 0 {
+			s.enums = append(s.enums, e)
+			_ = before
+			return e
+		}
+	}
+}
+
+func (s *sqlGen) column(t *TableInfo, names map[string]bool, primaries []*TableInfo) (ColumnInfo, string) {
+	r := s.g.r
+	c := ColumnInfo{Field: s.field(names)}
+	tag := ""
+	for {
+		switch r.Intn(22) {
+		case 0:
+			c.Kind, c.GoType = "bool", "bool"
+		case 1, 2:
+			c.Kind, c.GoType = "int", kernel.Pick(r, []string{"int", "int64", "int32", "int16", "uint8", "int"})
+		case 3:
+			c.Kind, c.GoType = "float", "float64"
+		case 4, 5:
+			c.Kind, c.GoType = "string", "string"
+		case 6:
+			// named basic
+			b := kernel.Pick(r, []string{"int", "string", "bool", "int16", "float64"})
+			n := s.g.fresh("NB")
+			fmt.Fprintf(&s.sf.body, "type %s %s\n\n", n, b)
+			c.GoType = n
+			switch b {
+			case "string":
+				c.Kind = "string"
+			case "bool":
+				c.Kind = "bool"
+			case "float64":
+				c.Kind = "float"
+			default:
+				c.Kind = "int"
+			}
+		case 7, 8:
+			e := s.supportEnum()
+			c.Kind, c.GoType, c.Enum = "enum", e.Name, e.Name
+		case 9, 10, 11:
+			if len(primaries) == 0 {
+				continue
+			}
+			target := kernel.Pick(r, primaries)
+			c.FK = target.Name
+			switch r.Intn(4) {
+			case 0: // plain key
+				c.Kind = "fk"
+				if target.IDType == "int64" {
+					c.GoType = "int64"
+					tag = fmt.Sprintf("gomacro-sql-foreign:%q", target.Name)
+				} else {
+					c.GoType = target.IDType
+				}
+				if r.Chance(1, 2) {
+					c.OnDelete = "CASCADE"
+				}
+			case 1: // sql.NullInt64
+				if target.IDType != "int64" {
+					continue
+				}
+				c.Kind, c.GoType, c.Nullable = "fk", "sql.NullInt64", true
+				s.tf.useStd("database/sql")
+				tag = fmt.Sprintf("gomacro-sql-foreign:%q", target.Name)
+				c.OnDelete = kernel.Pick(r, []string{"", "SET NULL", "CASCADE"})
+			case 2: // local look-alike
+				n := s.g.fresh("Opt")
+				fmt.Fprintf(&s.sf.body, "type %s struct {\n\tValid bool\n\tID %s\n}\n\n", n, target.IDType)
+				c.Kind, c.GoType, c.Nullable = "fk", n, true
+				tag = fmt.Sprintf("gomacro-sql-foreign:%q", target.Name)
+				c.OnDelete = kernel.Pick(r, []string{"", "SET NULL", "CASCADE"})
+			default:
+				c.Kind = "fk"
+				if target.IDType == "int64" {
+					c.GoType = "int64"
+					tag = fmt.Sprintf("gomacro-sql-foreign:%q", target.Name)
+				} else {
+					c.GoType = target.IDType
+				}
+			}
+			if c.OnDelete != "" {
+				tag += fmt.Sprintf(" gomacro-sql-on-delete:%q", c.OnDelete)
+			}
+		case 12:
+			s.tf.useStd("time")
+			c.Kind, c.GoType = "time", "time.Time"
+		case 13:
+			if s.dateType == "" {
+				s.dateType = "Date"
+				s.sf.useStd("time")
+				s.sf.body.WriteString("// Date only keeps year, month and day.\ntype Date time.Time\n\nfunc NewDateFrom(t time.Time) Date {\n\treturn Date(time.Date(t.Year(), t.Month(), t.Day(), 0, 0, 0, 0, time.UTC))\n}\n\nfunc (d Date) Time() time.Time { return time.Time(d) }\n\n")
+			}
+			c.Kind, c.GoType = "date", s.dateType
+		case 14:
+			s.tf.useStd("database/sql")
+			switch r.Intn(5) {
+			case 0:
+				c.Kind, c.GoType = "nulltime", "sql.NullTime"
+			case 1:
+				c.Kind, c.GoType = "nullstring", "sql.NullString"
+			case 2:
+				c.Kind, c.GoType = "nullbool", "sql.NullBool"
+			case 3:
+				c.Kind, c.GoType = "nullint32", "sql.NullInt32"
+			default:
+				c.Kind, c.GoType = "nullfloat", "sql.NullFloat64"
+			}
+			c.Nullable = true
+		case 15:
+			c.Kind, c.GoType = "bytes", "[]byte"
+		case 16, 17:
+			// named array / slice of basics or int enums
+			n := s.g.fresh("Arr")
+			elem := kernel.Pick(r, []string{"int", "int32", "int64", "string", "bool", "float64", "int16", "uint8"})
+			if r.Chance(1, 4) {
+				e := s.supportEnum()
+				if !e.IsString {
+					elem = e.Name
+					c.Enum = e.Name
+				}
+			}
+			c.Kind = "array"
+			if r.Bool() {
+				c.ArrayLen = r.Range(1, 5)
+				if elem == "uint8" {
+					elem = "int16" // [n]uint8 is fine, []uint8 is bytea; keep both out of the way
+				}
+				fmt.Fprintf(&s.sf.body, "type %s [%d]%s\n\n", n, c.ArrayLen, elem)
+			} else {
+				c.ArrayLen = -1
+				if elem == "uint8" {
+					elem = "int32"
+				}
+				fmt.Fprintf(&s.sf.body, "type %s []%s\n\n", n, elem)
+			}
+			c.GoType = n
+		case 18:
+			// all-integer composite
+			n := s.g.fresh("Comp")
+			enumField := ""
+			if r.Bool() {
+				e := s.supportEnum()
+				if !e.IsString {
+					enumField = e.Name
+				}
+			}
+			fmt.Fprintf(&s.sf.body, "type %s struct {\n\tA int\n\tB uint8\n", n)
+			if enumField != "" {
+				fmt.Fprintf(&s.sf.body, "\tC %s\n", enumField)
+			}
+			if r.Chance(1, 3) {
+				s.sf.body.WriteString("\tD int64\n")
+			}
+			s.sf.body.WriteString("}\n\n")
+			c.Kind, c.GoType = "composite", n
+		default:
+			// jsonb: named struct with a non-integer field, named map, named slice of structs
+			n := s.g.fresh("Js")
+			switch r.Intn(3) {
+			case 0:
+				fmt.Fprintf(&s.sf.body, "type %s struct {\n\tLabel string\n\tN int\n\tOn bool `json:\"on\"`\n\tList []int\n}\n\n", n)
+			case 1:
+				fmt.Fprintf(&s.sf.body, "type %s map[string]%s\n\n", n, kernel.Pick(r, []string{"bool", "int", "string", "[]string"}))
+			default:
+				in := s.g.fresh("JsIn")
+				fmt.Fprintf(&s.sf.body, "type %s struct {\n\tX float64\n\tS string\n}\n\ntype %s []%s\n\n", in, n, in)
+			}
+			c.Kind, c.GoType = "json", n
+		}
+		break
+	}
+	return c, tag
+}
+
+func (s *sqlGen) emitTable(t *TableInfo, tags map[string]string, comments []string, guards []string) {
+	b := &s.tf.body
+	for _, c := range comments {
+		fmt.Fprintf(b, "// %s\n", c)
+	}
+	fmt.Fprintf(b, "type %s struct {\n", t.Name)
+	idEmitted := false
+	idAt := 0
+	if t.Primary {
+		idAt = s.g.r.Intn(len(t.Columns) + 1)
+	}
+	emitID := func() {
+		if t.Primary && !idEmitted {
+			fmt.Fprintf(b, "\tId %s\n", t.IDType)
+			idEmitted = true
+		}
+	}
+	for i, c := range t.Columns {
+		if i == idAt {
+			emitID()
+		}
+		tag := tags[c.Field]
+		if s.g.r.Chance(1, 4) {
+			tag = strings.TrimSpace(fmt.Sprintf("json:%q %s", strings.ToLower(c.Field), tag))
+		}
+		if tag != "" {
+			tag = " `" + tag + "`"
+		}
+		fmt.Fprintf(b, "\t%s %s%s\n", c.Field, c.GoType, tag)
+	}
+	emitID()
+	for _, g := range guards {
+		fmt.Fprintf(b, "\t%s\n", g)
+	}
+	b.WriteString("}\n\n")
+}
+
+// sqlFiles builds a file of table structs (analysed) and a file of support
+// types (not analysed) for the root package.
+func (g *gen) sqlFiles() (*file, *file) {
+	r := g.r
+	s := &sqlGen{g: g, used: map[string]bool{}}
+	s.tf = &file{pkg: g.root, name: "tables.go", imports: map[string]string{}}
+	s.sf = &file{pkg: g.root, name: "sqltypes.go", imports: map[string]string{}}
+	nPrimary := r.Range(1, 4)
+	nLink := r.Intn(3)
+	if nPrimary < 2 && nLink > 0 && r.Bool() {
+		nPrimary = 2
+	}
+	names := append([]string(nil), tableNames...)
+	pickName := func() string {
+		i := r.Intn(len(names))
+		n := names[i]
+		names = append(names[:i], names[i+1:]...)
+		return n
+	}
+	var primaries []*TableInfo
+	for i := 0; i < nPrimary; i++ {
+		t := &TableInfo{Name: pickName(), Primary: true, IDType: "int64"}
+		if r.Bool() {
+			t.IDType = "Id" + t.Name
+			fmt.Fprintf(&s.tf.body, "type %s int64\n\n", t.IDType)
+		}
+		cols := map[string]bool{"id": true}
+		tags := map[string]string{}
+		nc := r.Range(1, 6)
+		for j := 0; j < nc; j++ {
+			c, tag := s.column(t, cols, primaries)
+			t.Columns = append(t.Columns, c)
+			if tag != "" {
+				tags[c.Field] = tag
+			}
+		}
+		var comments, guards []string
+		// uniques
+		var scalars []string
+		for _, c := range t.Columns {
+			if c.Kind == "string" || c.Kind == "int" || (c.Kind == "fk" && !c.Nullable) {
+				scalars = append(scalars, c.Field)
+			}
+		}
+		if len(scalars) > 0 && r.Chance(1, 3) {
+			u := []string{kernel.Pick(r, scalars)}
+			if len(scalars) > 1 && r.Chance(1, 2) {
+				o := kernel.Pick(r, scalars)
+				if o != u[0] {
+					u = append(u, o)
+				}
+			}
+			t.Uniques = append(t.Uniques, u)
+			comments = append(comments, fmt.Sprintf("gomacro:SQL ADD UNIQUE(%s)", strings.Join(u, ", ")))
+		}
+		if len(scalars) > 0 && r.Chance(1, 4) {
+			k := []string{kernel.Pick(r, scalars)}
+			if len(scalars) > 1 && r.Bool() {
+				o := kernel.Pick(r, scalars)
+				if o != k[0] {
+					k = append(k, o)
+				}
+			}
+			t.SelectKeys = append(t.SelectKeys, k)
+			comments = append(comments, fmt.Sprintf("gomacro:SQL _SELECT KEY(%s)", strings.Join(k, ", ")))
+		}
+		if r.Chance(1, 5) {
+			// custom query: UPDATE T SET <a> = $v$ WHERE <b> = $w$
+			var simple []string
+			for _, c := range t.Columns {
+				if c.Kind == "string" || c.Kind == "int" || c.Kind == "bool" {
+					simple = append(simple, c.Field)
+				}
+			}
+			if len(simple) >= 2 {
+				a, b := simple[0], simple[1]
+				inUnique := false
+				for _, u := range t.Uniques {
+					for _, f := range u {
+						inUnique = inUnique || f == a
+					}
+				}
+				if !inUnique {
+					q := QueryInfo{Name: "Set" + t.Name + a, Set: a, Where: b, Args: []string{a, b}}
+					t.Queries = append(t.Queries, q)
+					comments = append(comments, fmt.Sprintf("gomacro:QUERY %s UPDATE %s SET %s = $val$ WHERE %s = $sel$;", q.Name, t.Name, a, b))
+				}
+			}
+		}
+		if r.Chance(1, 5) {
+			switch r.Intn(3) {
+			case 0:
+				guards = append(guards, "guard bool `gomacro-sql-guard:\"true\"`")
+			case 1:
+				guards = append(guards, "guard int `gomacro-sql-guard:\"7\"`")
+			default:
+				e := s.supportEnum()
+				guards = append(guards, fmt.Sprintf("guard %s `gomacro-sql-guard:\"#[%s.%s]\"`", e.Name, e.Name, e.Exported[0]))
+			}
+			t.Guards = append(t.Guards, "guard")
+		}
+		if r.Chance(1, 3) {
+			comments = append([]string{t.Name + " is a synthesised table."}, comments...)
+		}
+		s.emitTable(t, tags, comments, guards)
+		primaries = append(primaries, t)
+		s.tables = append(s.tables, t)
+	}
+	for i := 0; i < nLink && len(primaries) > 0; i++ {
+		t := &TableInfo{Name: pickName() + "Link"}
+		cols := map[string]bool{"id": true}
+		tags := map[string]string{}
+		nfk := r.Range(1, 2)
+		for j := 0; j < nfk; j++ {
+			target := kernel.Pick(r, primaries)
+			c := ColumnInfo{Field: "Id" + target.Name, Kind: "fk", FK: target.Name}
+			if cols[strings.ToLower(c.Field)] {
+				c.Field += "Bis"
+			}
+			cols[strings.ToLower(c.Field)] = true
+			tag := ""
+			if target.IDType == "int64" {
+				c.GoType = "int64"
+				tag = fmt.Sprintf("gomacro-sql-foreign:%q", target.Name)
+			} else {
+				c.GoType = target.IDType
+			}
+			if r.Chance(1, 5) && target.IDType == "int64" {
+				c.GoType, c.Nullable = "sql.NullInt64", true
+				s.tf.useStd("database/sql")
+				tag = fmt.Sprintf("gomacro-sql-foreign:%q", target.Name)
+			}
+			if r.Chance(2, 3) {
+				c.OnDelete = "CASCADE"
+				tag = strings.TrimSpace(tag + fmt.Sprintf(" gomacro-sql-on-delete:%q", c.OnDelete))
+			}
+			if tag != "" {
+				tags[c.Field] = tag
+			}
+			t.Columns = append(t.Columns, c)
+		}
+		for j := r.Intn(3); j > 0; j-- {
+			c, tag := s.column(t, cols, nil)
+			t.Columns = append(t.Columns, c)
+			if tag != "" {
+				tags[c.Field] = tag
+			}
+		}
+		var comments []string
+		var keyable []string
+		for _, c := range t.Columns {
+			if (c.Kind == "fk" && !c.Nullable) || c.Kind == "int" || c.Kind == "string" {
+				keyable = append(keyable, c.Field)
+			}
+		}
+		if len(keyable) >= 2 && r.Chance(1, 3) {
+			t.PrimaryKey = keyable[:2]
+			t.Uniques = append(t.Uniques, t.PrimaryKey)
+			comments = append(comments, fmt.Sprintf("gomacro:SQL ADD PRIMARY KEY (%s)", strings.Join(t.PrimaryKey, ", ")))
+		} else if len(keyable) >= 1 && r.Chance(1, 3) {
+			u := keyable[:1]
+			t.Uniques = append(t.Uniques, u)
+			comments = append(comments, fmt.Sprintf("gomacro:SQL ADD UNIQUE(%s)", strings.Join(u, ", ")))
+		}
+		if len(keyable) >= 1 && r.Chance(1, 3) {
+			k := []string{keyable[len(keyable)-1]}
+			t.SelectKeys = append(t.SelectKeys, k)
+			comments = append(comments, fmt.Sprintf("gomacro:SQL _SELECT KEY(%s)", strings.Join(k, ", ")))
+		}
+		s.emitTable(t, tags, comments, nil)
+		s.tables = append(s.tables, t)
+	}
+	for _, t := range s.tables {
+		g.prog.Tables = append(g.prog.Tables, *t)
+	}
+	return s.tf, s.sf
+}
